@@ -18,7 +18,11 @@ CRN on/off (BasePop registers simulants under key columns), births at arbitrary 
 pipelines with rate / union post-processing and a·v+b modifiers (Pipes, RiskEffect), scalar / categorical / binned lookup
 tables (Tables), adding and concatenating observers with mapper / binned stratifications (Obs), per-simulant step
 modifiers and snoozing (StepMod, Snoozer), and a component that keeps the RESIDUAL_CHOICE sentinel in its own state
-(ResidualUser: regression for finding F-M).  Every component logs the *reactions* it performs (births, untracking,
+(ResidualUser: regression for finding F-M).  Optional traits feed the framework the unusual-but-legal inputs real models
+produce: NaN / inf / zero / above-the-clip rates and NaN probabilities for some simulants (Mortality through
+stream.filter_for_rate / filter_for_probability / plain exp; Condition's incidence transition), a NaN cell in a lookup
+table, NaN pipeline values (unknown exposure), calls with an empty index.  heap_churn() fills freed numpy buffers with
+garbage (level set per environment) so that reads of uninitialised memory differ between environments.  Every component logs the *reactions* it performs (births, untracking,
 snoozes) in `self.actions`, which is part of the pickled state.
 """
 import hashlib
@@ -36,6 +40,61 @@ from vivarium.framework.utilities import rate_to_probability
 from vivarium.framework.values import list_combiner, union_post_processor
 
 EVENTS = ["time_step__prepare", "time_step", "time_step__cleanup", "collect_metrics"]
+
+
+# ---------------------------------------------------------------------------------------------------------------------
+# process-level disturbance that is NOT program state: heap churn.  Freed numpy buffers full of garbage make a read of
+# uninitialised memory (np.empty, ufunc(..., where=mask) without out=) show up as a digest difference between
+# environments.  The level is set per environment by the driver; components call heap_churn() right before they hand
+# vectors to the framework (a user component may allocate memory whenever it likes).
+# ---------------------------------------------------------------------------------------------------------------------
+_CHURN = {"level": 0, "n": 0}
+
+
+def set_churn(level):
+    _CHURN["level"], _CHURN["n"] = int(level or 0), 0
+
+
+def heap_churn():
+    level = _CHURN["level"]
+    if not level:
+        return
+    _CHURN["n"] += 1
+    rs = np.random.RandomState(seed=(7919 * level + 104729 * _CHURN["n"]) % (2 ** 32))     # private generator
+    junk = []
+    sizes = list(range(1, 72)) + [96, 128, 200, 256, 400, 512, 1000, 1024, 4096]
+    for n in sizes:
+        for _ in range(8 + level):            # numpy keeps the last few freed small buffers per size class
+            style = rs.randint(4)               # garbage of several kinds, so that whatever reads it can go either way
+            if style == 0:
+                junk.append(np.frombuffer(rs.bytes(8 * n), dtype=np.float64).copy())
+            elif style == 1:
+                junk.append(rs.random_sample(n))
+            elif style == 2:
+                junk.append(rs.random_sample(n) * 1e300 - 5e299)
+            else:
+                junk.append(rs.random_sample(n) * 4 - 2)
+            if n <= 72:
+                junk.append(np.frombuffer(rs.bytes(n), dtype=np.uint8).copy())
+    del junk
+
+
+SPECIAL = {"nan": float("nan"), "inf": float("inf"), "zero": 0.0, "big": 1000.0}
+
+
+def apply_special(values, special, safe_exp=False):
+    """values: Series indexed by simulant label; special: [[m, r, code], ...] - simulants with label % m == r get the
+    unusual-but-legal value `code` (nan = not at risk / exposure unknown, inf, zero, big = rate above the 250 clip)."""
+    if not special or len(values) == 0:
+        return values
+    values = values.astype(float).copy()
+    labels = np.asarray(values.index, dtype="int64")
+    for m, r, code in special:
+        v = SPECIAL[code]
+        if safe_exp and code == "big":
+            v = 200.0                           # a plain exp(-1000) underflows and numpy is set to raise
+        values[labels % int(m) == int(r)] = v
+    return values
 
 
 # =====================================================================================================================
@@ -176,11 +235,12 @@ class Pipes(Component):
     """`mortality_rate` (rate producer: replace combiner + rescale post-processor), modified by a*v+b modifiers;
     `exposure` (plain value), `paf` (list combiner + union post-processor)."""
 
-    def __init__(self, base=0.4, mods=(), pafs=()):
+    def __init__(self, base=0.4, mods=(), pafs=(), nan_exposure=0):
         super().__init__()
         self.base = base
         self.mods = [list(m) for m in mods]
         self.pafs = list(pafs)
+        self.nan_exposure = nan_exposure       # every nan_exposure-th simulant has an UNKNOWN exposure (NaN pipeline value)
 
     @property
     def columns_required(self):
@@ -208,7 +268,10 @@ class Pipes(Component):
 
     def exposure_source(self, index):
         pop = self.population_view.get(index)
-        return pop["age"] / 100.0 + (pop["sex"] == "M").astype(float)
+        value = pop["age"] / 100.0 + (pop["sex"] == "M").astype(float)
+        if self.nan_exposure:
+            value[np.asarray(value.index, dtype="int64") % self.nan_exposure == 1] = np.nan
+        return value
 
 
 class AffineMod:
@@ -237,10 +300,13 @@ class Mortality(Component):
     """Kills by the mortality_rate pipeline (filter_for_probability on 1-exp(-rate)); untracks the dead one step
     later in time_step__prepare; optionally snoozes them (move_simulants_to_end)."""
 
-    def __init__(self, untrack=True, snooze=False):
+    def __init__(self, untrack=True, snooze=False, via="exp", special=(), empty_calls=False):
         super().__init__()
         self.untrack = untrack
         self.snooze = snooze
+        self.via = via                          # exp | rate (stream.filter_for_rate) | prob (rate_to_probability + filter_for_probability)
+        self.special = [list(x) for x in special]
+        self.empty_calls = empty_calls
         self.actions = []
         self.count = 0
 
@@ -265,10 +331,23 @@ class Mortality(Component):
 
     def on_time_step(self, event):
         pop = self.population_view.get(event.index, query="alive == 'alive'")
-        rate = self.mortality_rate(pop.index)
-        prob = 1 - np.exp(-rate)
-        draw = self.randomness.get_draw(pop.index)
-        dead = pop.index[draw < prob]
+        if self.empty_calls:
+            empty = pop.index[:0]
+            self.mortality_rate(empty)
+            self.randomness.get_draw(empty)
+            self.randomness.filter_for_rate(empty, pd.Series([], index=empty, dtype=float))
+            self.randomness.filter_for_probability(empty, [])
+            self.randomness.choice(empty, ["a", "b"])
+        rate = apply_special(self.mortality_rate(pop.index), self.special, safe_exp=self.via == "exp")
+        heap_churn()
+        if self.via == "rate":
+            dead = self.randomness.filter_for_rate(pop.index, rate)
+        elif self.via == "prob":
+            dead = self.randomness.filter_for_probability(pop.index, pd.Series(rate_to_probability(rate), index=pop.index))
+        else:
+            prob = 1 - np.exp(-rate)
+            draw = self.randomness.get_draw(pop.index)
+            dead = pop.index[draw < prob]
         if len(dead):
             self.population_view.subview(["alive"]).update(pd.Series("dead", index=dead, name="alive"))
             if self.snooze:
@@ -282,9 +361,10 @@ class Mortality(Component):
 class Tables(Component):
     """Lookup tables: scalar, categorical (sex) and binned (age); exposes them as pipelines sources."""
 
-    def __init__(self, scale=1.0):
+    def __init__(self, scale=1.0, nan_bin=None):
         super().__init__()
         self.scale = scale
+        self.nan_bin = nan_bin                  # index (0..7) of a (sex, age bin) cell whose value is NaN: data missing
 
     def setup(self, builder):
         rows = []
@@ -292,6 +372,8 @@ class Tables(Component):
             for i, (lo, hi) in enumerate([(0, 5), (5, 30), (30, 60), (60, 125)]):
                 rows.append({"sex": sex, "age_start": lo, "age_end": hi,
                              "value": self.scale * (0.125 * (i + 1) + (0.0625 if sex == "M" else 0.0))})
+        if self.nan_bin is not None:
+            rows[int(self.nan_bin) % len(rows)]["value"] = float("nan")
         self.binned = builder.lookup.build_table(pd.DataFrame(rows), key_columns=["sex"], parameter_columns=["age"],
                                                  value_columns=["value"])
         self.categorical = builder.lookup.build_table(pd.DataFrame({"sex": ["M", "F"], "w": [0.25, 0.5]}),
@@ -312,9 +394,10 @@ class Tables(Component):
 class RiskEffect(Component):
     """Modifies incidence_rate by a factor depending on the `exposure` pipeline (if present) else on sex."""
 
-    def __init__(self, factor=2.0):
+    def __init__(self, factor=2.0, use_exposure=False):
         super().__init__()
         self.factor = factor
+        self.use_exposure = use_exposure        # needs the `exposure` pipeline of Pipes; NaN exposure = not exposed
 
     @property
     def columns_required(self):
@@ -322,17 +405,23 @@ class RiskEffect(Component):
 
     def setup(self, builder):
         builder.value.register_value_modifier("incidence_rate", self.adjust, requires_columns=["sex"])
+        self.exposure = builder.value.get_value("exposure") if self.use_exposure else None
 
     def adjust(self, index, rates):
         pop = self.population_view.get(index)
-        return rates * (1.0 + (self.factor - 1.0) * (pop["sex"] == "M").astype(float))
+        if self.exposure is not None:
+            exposed = (self.exposure(index) > 0.75).astype(float)     # NaN > x is False
+        else:
+            exposed = (pop["sex"] == "M").astype(float)
+        return rates * (1.0 + (self.factor - 1.0) * exposed)
 
 
 class RateTransition(Transition):
-    def __init__(self, input_state, output_state, rate_name=None, prob=None, **kwargs):
+    def __init__(self, input_state, output_state, rate_name=None, prob=None, special=(), **kwargs):
         super().__init__(input_state, output_state, probability_func=self._p, **kwargs)
         self.rate_name = rate_name
         self.prob = prob
+        self.special = [list(x) for x in special]
 
     def setup(self, builder):
         super().setup(builder)
@@ -340,8 +429,10 @@ class RateTransition(Transition):
 
     def _p(self, index):
         if self.rate is not None:
-            return pd.Series(rate_to_probability(self.rate(index)), index=index)
-        return pd.Series(float(self.prob), index=index)
+            rate = apply_special(self.rate(index), self.special)
+            heap_churn()
+            return pd.Series(rate_to_probability(rate), index=index)
+        return apply_special(pd.Series(float(self.prob), index=index), [x for x in self.special if x[2] in ("nan", "zero")])
 
 
 class CondState(State):
@@ -356,18 +447,19 @@ class CondState(State):
 class Condition(Machine):
     """healthy -(incidence_rate | p)-> sick -(p_rem)-> healthy ; sick -(p_sev)-> severe (absorbing, triggered)."""
 
-    def __init__(self, p_inc=None, p_rem=0.25, p_sev=0.125, triggered=False):
+    def __init__(self, p_inc=None, p_rem=0.25, p_sev=0.125, triggered=False, special=()):
         healthy = CondState("healthy", allow_self_transition=True)
         sick = CondState("sick", allow_self_transition=True)
         severe = CondState("severe", allow_self_transition=True)
         healthy.add_transition(RateTransition(healthy, sick, rate_name=None if p_inc is not None else "incidence_rate",
-                                              prob=p_inc))
+                                              prob=p_inc, special=special))
         sick.add_transition(RateTransition(sick, healthy, prob=p_rem))
         self.sev = RateTransition(sick, severe, prob=p_sev,
                                   triggered=Trigger.START_INACTIVE if triggered else Trigger.NOT_TRIGGERED)
         sick.add_transition(self.sev)
         super().__init__("cond", states=[healthy, sick, severe])
         self.p_inc, self.p_rem, self.p_sev, self.triggered = p_inc, p_rem, p_sev, triggered
+        self.special = [list(x) for x in special]
 
     @property
     def columns_created(self):
@@ -796,7 +888,9 @@ def run_program(program, env, backup_dir=None):
     import os
     driver = env.get("driver", "run_simulation")
     pol = env.get("pollute", "none")
+    set_churn(env.get("churn", 0))
     pollute(pol, 0)
+    heap_churn()
     prior_contexts(env.get("prior", 0))
     if env.get("reset"):
         boot.reset_contexts()
@@ -807,6 +901,7 @@ def run_program(program, env, backup_dir=None):
 
     def between(k):
         pollute(pol, k)
+        heap_churn()
 
     tap = StepTap(sim, rec, between)
     out = {"driver": driver}
@@ -863,13 +958,15 @@ def resume_program(path, program, env):
     """Load a backup (dill) and continue to the end; returns the digests of the REMAINING steps etc."""
     import dill
     pol = env.get("pollute", "none")
+    set_churn(env.get("churn", 0))
     pollute(pol, 0)
+    heap_churn()
     with open(path, "rb") as f:
         sim = dill.load(f)
     boot.quiet_logging()
     _, _, rec = collect(sim)
     stop = stop_time(program)
-    tap = StepTap(sim, rec, lambda k: pollute(pol, k))
+    tap = StepTap(sim, rec, lambda k: (pollute(pol, k), heap_churn()))
     out = {"driver": env.get("driver", "run"), "init": state_digest(sim), "rows0": table_rows(sim),
            "clock0": rec.now() if rec else None, "type": type(sim).__name__}
     if out["driver"] == "run":
@@ -1011,25 +1108,39 @@ def gen_program(rng, max_steps=8, force=None):
             sched[str(rng.choice([0, 0, 1, 2, 3, n - 1, rng.randint(0, n)]))] = rng.choice([1, 2, 3, 5])
         comps.append({"kind": "births", "schedule": sched, "phase": rng.choice([0, 1, 1, 1, 2, 3])})
     have_tables = want("tables", 0.6)
-    if have_tables:
-        comps.append({"kind": "tables", "scale": rng.choice([1.0, 2.0, 8.0, 30.0])})
+    def specials():
+        """unusual-but-legal inputs real models produce: NaN (not at risk / exposure unknown), inf, zero, above the clip"""
+        out = []
         if rng.random() < 0.6:
-            comps.append({"kind": "risk", "factor": rng.choice([2.0, 0.5, 1.5])})
+            for _ in range(rng.choice([1, 1, 2, 3])):
+                m = rng.choice([2, 3, 4, 5])
+                out.append([m, rng.randrange(m), rng.choice(["nan", "nan", "nan", "inf", "zero", "big"])])
+        return out
+
     have_mort = want("mortality", 0.6)
+    if have_tables:
+        comps.append({"kind": "tables", "scale": rng.choice([1.0, 2.0, 8.0, 30.0]),
+                      "nan_bin": rng.randrange(8) if rng.random() < 0.35 else None})
+        if rng.random() < 0.6:
+            comps.append({"kind": "risk", "factor": rng.choice([2.0, 0.5, 1.5]),
+                          "use_exposure": have_mort and rng.random() < 0.5})
     if have_mort:
         comps.append({"kind": "pipes", "base": rng.choice([5.0, 30.0, 80.0, 150.0]),
                       "mods": [[rng.choice([2.0, 0.5, 1.0]), rng.choice([0.0, 0.125, 1.0])]
                                for _ in range(rng.randint(0, 2))],
-                      "pafs": [rng.choice([0.25, 0.5, 0.125]) for _ in range(rng.randint(0, 2))]})
+                      "pafs": [rng.choice([0.25, 0.5, 0.125]) for _ in range(rng.randint(0, 2))],
+                      "nan_exposure": rng.choice([0, 0, 2, 3])})
     have_stepmod = clock == "datetime" and want("stepmod", 0.45)
     if have_mort:
         comps.append({"kind": "mortality", "untrack": rng.random() < 0.8,
-                      "snooze": have_stepmod and rng.random() < 0.4})
+                      "snooze": have_stepmod and rng.random() < 0.4,
+                      "via": rng.choice(["exp", "rate", "rate", "prob"]), "special": specials(),
+                      "empty_calls": rng.random() < 0.3})
     have_cond = want("condition", 0.6)
     if have_cond:
         comps.append({"kind": "condition", "p_inc": None if have_tables else rng.choice([0.25, 0.5, 0.75]),
                       "p_rem": rng.choice([0.25, 0.5, 0.125]), "p_sev": rng.choice([0.125, 0.25, 0.5]),
-                      "triggered": rng.random() < 0.5 or "triggered" in force})
+                      "triggered": rng.random() < 0.5 or "triggered" in force, "special": specials()})
     if want("residual", 0.4):
         comps.append({"kind": "residual", "p": rng.choice([0.25, 0.5, 0.75])})
     if have_stepmod:
@@ -1059,6 +1170,18 @@ def gen_program(rng, max_steps=8, force=None):
 def program_tags(program):
     kinds = sorted({c["kind"] for c in program["components"]} - {"recorder", "base_pop"})
     tags = [f"kind:{k}" for k in kinds]
+    for c in program["components"]:
+        for sp in c.get("special") or []:
+            tags.append(f"special:{c['kind']}:{sp[2]}")
+        if c.get("via"):
+            tags.append(f"mortality_via:{c['via']}")
+        if c.get("nan_bin") is not None:
+            tags.append("trait:nan_table_cell")
+        if c.get("nan_exposure"):
+            tags.append("trait:nan_pipeline_value")
+        if c.get("empty_calls"):
+            tags.append("trait:empty_index_calls")
+    tags = sorted(set(tags))
     tags += [f"clock:{program['clock']}", f"crn:{int(bool(program.get('crn')))}", f"pop:{min(program['pop'], 9)}",
              f"step:{program['step']}", f"endfrac:{program.get('end_frac', 0)}"]
     return tuple(tags)
